@@ -6,7 +6,7 @@
   * `namespace_traverse` = `namespaces_in_scope` (nameaccess.rs)
   * `FullnameInfo` / `FullnameSerializer` (output/fullname.rs): the stack of flattened
     (prefix, namespace) lists used by the serialisers and by create_missing_prefixes,
-    unresolved_namespaces, deduplicate_namespaces.
+    unresolved_namespaces.
 -/
 import XotModel.Model.Tree
 import XotModel.Model.Env
@@ -110,8 +110,6 @@ def FStack.addEmptyPrefix (s : FStack) (ns : Nat) : FStack :=
   match s with
   | [] => []
   | top :: rest => (top ++ [(Env.emptyPrefix, ns)]) :: rest
-
-def FStack.isNamespaceKnown (s : FStack) (ns : Nat) : Bool := s.top.any (fun (_, n) => n == ns)
 
 /-- `has_default_namespace`: some entry of the top frame binds the empty prefix to a namespace
     other than the no-namespace id. -/
